@@ -29,7 +29,7 @@ def _judge(a, out):
         if act == "disc" or (act.startswith("with") and act != "withref"):     # a refused entry leaves the client as it was
             connected = False
         ok = (flag == ("1" if connected else "0")) and (opened == ("1" if connected else "0"))
-        if act in ("cref", "withref") and res != "raise_OSError":
+        if act in ("cref", "crefs", "withref") and res != "raise_OSError":
             ok = False
         if act.startswith("withx") and res != "raise_BodyError":
             ok = False
@@ -58,7 +58,7 @@ def gen(rng):
             a = rng.choice(["opeof", "disc", "opeof"] if dead else ["op", "opx", "disc", "disc", "op", "opeof"])
             dead = dead or a == "opeof"
         else:
-            a = rng.choice(["cok", "cok", "cref", "disc", "with", "withx", "withref", "withop"])
+            a = rng.choice(["cok", "cok", "cref", "crefs", "disc", "with", "withx", "withref", "withop"])
             a = _body(rng) if a == "withx" else a
         if a == "cok":
             connected, dead = True, False
@@ -74,7 +74,7 @@ def gen_any(rng):
     open connection while connected (model parameter reclaim = true, theorem sockets_exactly_all)"""
     acts, connected, dead = [], False, False
     for _ in range(rng.randrange(2, 16)):
-        a = rng.choice(["cok", "cok", "cref", "disc", "with", "withx", "withop"] + ((["opeof"] if dead else ["op", "opx", "opeof"]) if connected else ["withref"]))
+        a = rng.choice(["cok", "cok", "cref", "disc", "with", "withx", "withop"] + ((["opeof"] if dead else ["op", "opx", "opeof"]) if connected else ["withref", "crefs"]))
         dead = dead or a == "opeof"
         if a == "cok":
             dead = False
@@ -133,7 +133,8 @@ FIXED = [{"api": t, "acts": acts} for t in ("type1", "type2") for acts in (
      "withx:KeyError", "cok", "disc"],
     ["cok", "disc", "cok", "disc", "cok", "op", "disc"],
     ["cok", "op", "opeof", "opeof", "disc", "cok", "op", "disc"],
-    ["withref", "withop", "withref", "withref", "with", "withop", "cref", "withop", "cok", "op", "disc"])]
+    ["withref", "withop", "withref", "withref", "with", "withop", "cref", "withop", "cok", "op", "disc"],
+    ["crefs", "cok", "op", "disc", "crefs", "crefs", "cok", "disc", "crefs", "withop"])]
 
 
 def streams(ctx):
